@@ -25,6 +25,8 @@ def model_polygons(model):
 def hull_bounds(model):
     xs = [p[0] for ring in model.cells if ring is not None for p in ring]
     ys = [p[1] for ring in model.cells if ring is not None for p in ring]
+    if not xs:
+        return 0.0, 0.0, 1.0, 1.0
     return min(xs), min(ys), max(xs), max(ys)
 
 
@@ -37,6 +39,8 @@ def query_points(model, rng, count):
     """[(Point, class)] over: interior, shared_vertex, shared_edge, hole_interior, just_outside, far_outside."""
     polys = model_polygons(model)
     live = [n for n, p in enumerate(polys) if p is not None]
+    if not live:
+        return [(Point(float(rng.uniform(0, 1)), float(rng.uniform(0, 1))), 'far_outside') for _ in range(count)]
     minx, miny, maxx, maxy = hull_bounds(model)
     span = max(maxx - minx, maxy - miny, 1e-6)
     verts = [p for ring in model.cells if ring is not None for p in ring]
@@ -105,6 +109,8 @@ def clip_geometries(model, rng, count):
     verts = all_vertices(model)
     polys = model_polygons(model)
     live = [n for n, p in enumerate(polys) if p is not None]
+    if not live:
+        return []
     out = []
     classes = ['box_inside', 'box_inside', 'cover_all', 'hug_border', 'sliver', 'convex', 'concave', 'multi',
                'line', 'point', 'touch_vertex', 'touch_edge', 'one_cell', 'cell_exact']
@@ -169,6 +175,8 @@ def polylines(model, rng, count):
     w, h = max(maxx - minx, 1e-6), max(maxy - miny, 1e-6)
     polys = model_polygons(model)
     live = [n for n, p in enumerate(polys) if p is not None]
+    if not live:
+        return []
     out = []
     classes = ['through', 'through', 'inside', 'start_outside', 'zigzag', 'miss', 'along_edge', 'two_cells']
     tries = 0
